@@ -587,6 +587,8 @@ def run(cx, tier='quick'):
             rep.checked.append((r, i, v))
             k += 1
     rep.counts['SEL'] = k
+    from .c13 import include_own_scanners
+    include_own_scanners(cx, facts, rep, ['::default::'])
     rep.floor('SUM-DEFAULT', 12)
     rep.floor('SEL', 2)
     rep.assumptions += ['a user expression is evaluated as written', 'struct-expression semantics']
